@@ -412,11 +412,13 @@ func VerifC15Options() {
 // C14 with many closers (a fixed sequential schedule, since the count is the subject): batch or
 // pool boundaries must not skip or repeat a closer
 func VerifC14Many() {
-	n := []int{16, 17, 18, 33}[nd.Choose(4)]
+	sel := nd.Choose(5)
+	n := []int{16, 17, 18, 33, 40}[sel]
 	var cs []*vCloser
 	s := &App{}
 	for i := 0; i < n; i++ {
-		c := &vCloser{id: i, fail: i%5 == 3}
+		// the last size has many FAILING closers (every second one): a failure must not cost anything later closers need
+		c := &vCloser{id: i, fail: i%5 == 3 || (sel == 4 && i%2 == 1)}
 		cs = append(cs, c)
 		s.CloserComponents = append(s.CloserComponents, c)
 	}
